@@ -141,6 +141,17 @@ func (s *SSTableManager) candidateTablesForCompaction(compactionMaxSizeBytes uin
 	*/
 	numRecords := uint64(0)
 	selectedForCompaction = floodFill(selectedForCompaction)
+
+	// The compaction drops tombstones, which is only correct when every older table takes part in it: otherwise a
+	// value in an older table that was not selected would become visible again. So whenever a selected table
+	// carries tombstones, all older tables are selected as well.
+	for i := 0; i < len(selectedForCompaction); i++ {
+		if selectedForCompaction[i] && s.allSSTableReaders[i].MetaData().NullValues > 0 {
+			for j := 0; j < i; j++ {
+				selectedForCompaction[j] = true
+			}
+		}
+	}
 	var selectedPaths []string
 	for i := 0; i < len(s.allSSTableReaders); i++ {
 		if selectedForCompaction[i] {
